@@ -78,6 +78,14 @@ theorem standardize_keeps_atoms (fixTaut : Bool) (rules : List StdRule) (ts ts' 
   | pause k x => intro h hs; simp only [reached, Option.some.injEq] at h; subst h; exact ⟨hs.2.1, heavyAtoms_eq_of_skeleton hs.2.1⟩
   | crash => intro h; simp [reached] at h
 
+/-- the same for the whole `standardize()` after its `fix_resonance` call (double rules, second shot, single rules, metal
+    rules — `standardizeFrom`, the function the driver's `STD` request runs), from any phase / rule index, paused or done -/
+theorem standardize_whole_keeps_atoms (fixTaut : Bool) (fuel phase ri : Nat) (fs : Bool) (allFixed : List Nat) (ts ts' : TState)
+    (hnd : ts.mol.ids.Nodup) (h : reachedS (standardizeFrom fixTaut fuel phase ri fs allFixed ts) = some ts') :
+    skeleton ts'.mol = skeleton ts.mol ∧ heavyAtoms ts'.mol = heavyAtoms ts.mol :=
+  let ⟨_, hs⟩ := standardizeFrom_skeleton fixTaut fuel phase ri fs allFixed ts ts' hnd h
+  ⟨hs, heavyAtoms_eq_of_skeleton hs⟩
+
 /-- **Charge accounting**: the log is an exact ledger. If none of the new log entries is a `bad charge formed` abort, the net
     charge changed by exactly Σ over the new entries of the charge sum of the rule they name. -/
 theorem standardize_charge_accounting (fixTaut : Bool) (rules : List StdRule) (ts ts' : TState)
